@@ -217,7 +217,7 @@ def check(ctx):
             else:
                 out_.add(c_)
         return out_
-    callers = _lift(callers)
+    callers = {c_.split(".<locals>")[0] for c_ in _lift(callers)}   # a nested function belongs to the function that defines it
     # a join helper hoisted out of _merge_columns (a new function called only from it) is part of it
     lifted = set()
     for j_ in joiners:
